@@ -36,6 +36,7 @@ BASE_FLAGS.append("-DC20_HAS_BF_MEMPTR_RV=%d" % _probe(
     "#include <etl/functional.hpp>\nstruct S { int d; long q(int) && { return 0; } long c(int) const&& { return 0; } };\n"
     "long use(S s) { auto g = etl::bind_front(&S::q, s); auto const h = etl::bind_front(&S::c, s); auto m = etl::bind_front(&S::d, s);\n"
     "  auto const n = etl::bind_front(&S::d, s); int v = etl::move(m)() + etl::move(n)(); return etl::move(g)(1) + etl::move(h)(2) + v; }\n"))
+BASE_FLAGS.append("-DC20_HAS_TCAT0=%d" % _probe("#include <etl/tuple.hpp>\nauto use() { return etl::tuple_cat(); }\n"))
 BASE_FLAGS.append("-DC20_HAS_MFT_NARROW=%d" % _probe(
     "#include <etl/tuple.hpp>\n#include <etl/utility.hpp>\nstruct A { int a; int b; int c; }; struct N { N(short, short) {} };\n"
     "int use(long x) { auto a = etl::make_from_tuple<A>(etl::tuple<long, long>{x, x}); auto n = etl::make_from_tuple<N>(etl::tuple<int, int>{int(x), 2});\n"
@@ -105,7 +106,7 @@ RULE = ("Stateless lines: (pair cmp) every pair of pairs over {0,1,2} for int el
         "construction from a pair; converting constructors / assignments widen / narrow the int elements and keep the others) x 56 "
         "element-kind lists: every list of length 1 and 2 (all 36 combinations), the 6 uniform triples and 8 mixed triples in "
         "which every kind occurs at every position; apply through the four tuple categories x the four callee categories and with "
-        "a pointer to member function / data whose object is the first element; tuple_cat of 1..3 tuples of arity 1..2 of every "
+        "a pointer to member function / data whose object is the first element; tuple_cat of 0..3 tuples of arity 1..2 of every "
         "uniform kind and of 7 mixed-kind combinations, handed over as lvalues, const lvalues, rvalues and const rvalues; (invoke) "
         "function / function pointer / lambda / function object in four categories with 0..2 forwarded arguments in all category "
         "combinations / member function and member data pointers through object, derived object, reference_wrapper, pointer, "
@@ -116,14 +117,24 @@ RULE = ("Stateless lines: (pair cmp) every pair of pairs over {0,1,2} for int el
         "wrapper, and bind_front of a pointer to member with the object / a pointer / a pointer to const / a reference_wrapper "
         "bound; not_fn called directly, through a copy, through a moved wrapper, around a pointer to member, and the stateless "
         "not_fn<ConstFn>() around a function, a member function and a data member; inplace_function around a pointer to member "
-        "function / data) every wrapper qualification x every argument category combination.  Observed per line: values, what a "
+        "function / data) every wrapper qualification x every argument category combination; (mft) make_from_tuple<T> for 8 target "
+        "kinds that tell T(x...) from T{x...} (constructors only; + initializer_list<int>; + initializer_list<long>; + a non-viable "
+        "initializer_list<Tag>; an aggregate; explicit constructors; an aggregate of ints from long elements and short parameters "
+        "from int elements, i.e. narrowing) x arity 0..3 x the four tuple categories, from a tuple and from a pair, observed: which "
+        "constructor ran and what it received; and the list-initialisation T{x...} itself compiled directly (form=brace) to validate "
+        "Spec.listInit against the compiler.  Observed per line: values, what a "
         "move leaves in the source (-1 for instrumented elements), the number of copies, the call log (target, category of the "
         "target object, per argument the category seen by a forwarding parameter, whether it arrived as a reference_wrapper, and "
-        "its value) and the result.  Histories on inplace_function: 4 named objects (one of smaller capacity), closures of 5 sizes "
-        "up to the capacity, trivially and non-trivially copyable; exhaustive: every sequence of 3 (thorough: 4) operations from an "
+        "its value) and the result.  Histories on inplace_function: 6 named objects of three specialisations (0..2 capacity 32, 3..4 "
+        "capacity 16, 5 capacity 24 / alignment 8), closures of 5 sizes up to the capacity, trivially and non-trivially copyable; "
+        "conversion matrix: (destination, source) over every pair of specialisations that compiles (same type 0<-1, 3<-4; smaller "
+        "source 0<-3, 0<-5, ...; a larger source capacity is a static_assert failure) x source {empty, holding one of 3 closure "
+        "types} x destination {empty, holding} x source expression {non-const lvalue, const lvalue, rvalue, const rvalue} x "
+        "{construction, assignment}, then operator bool / == nullptr / != nullptr and calls of both objects; self-assignment "
+        "through the four categories; exhaustive: every sequence of 3 (thorough: 4) operations from an "
         "alphabet of 21 (construct from closure / empty / copy / move, copy/move/self assignment, reset, member swap, free swap, "
         "self-swap, call), each followed by a call of every object, operator bool, == nullptr and != nullptr; random (VERIF_SEED): "
-        "histories of 10-40 operations over all operations, objects and closure types.  Observed per line: result or "
+        "histories of 10-40 operations over all operations (source categories included), objects and closure types.  Observed per line: result or "
         "bad_function_call, emptiness of every object, number of live closure objects (lifetime registry), the call log.  A case is "
         "non-trivial when its expected output is not `n/a` and, for a history, when it contains a call of a non-empty object; "
         "distinct = distinct case text.")
@@ -134,7 +145,10 @@ ASSUMPTIONS = ["libstdc++ 12 std::pair / std::tuple / std::invoke / std::referen
                "not_fn<ConstFn>() (C++26) has none in libstdc++ 12: the reference is !std::invoke(ConstFn, args...)",
                "for element types with unordered values (double with NaN) the pair relations are claimed only outside the input class "
                "Spec.unorderedPair (known finding F-C20-pair-rel-unordered; the class is exact: pair_rels_dbl_iff)",
-               "an object is not copy- or move-constructed from itself (precondition `Spec.valid`)"]
+               "an object is not copy- or move-constructed from itself (precondition `Spec.valid`)",
+               "inplace_function: construction / assignment from a specialisation of LARGER capacity or stricter alignment is a "
+               "static_assert failure of the header (is_valid_inplace_destination), i.e. not a program: not generated",
+               "make_from_tuple target kinds: at most three tuple elements (the constructors the target types of the harness have)"]
 TRUSTED = ["hand model Tetl/C20/Model.lean tied to the source by the correspondence run (R1) on every run",
            "spec Tetl/C20/Spec.lean validated against libstdc++ (R2) on every run",
            "the instrumented element and callable types of harness/c20.cpp (copy counter, moved-from marker, call log, lifetime registry)",
@@ -160,8 +174,9 @@ TCAT_MIXED = [([0, 2, 4, 3, 5], [2, 1, 2]), ([1, 2, 1], [1, 2]), ([5, 4, 1, 3, 0
               ([4, 4, 1], [1, 2]), ([5, 0, 5, 2], [1, 2, 1]), ([1, 0, 3], [2, 1])]
 TYPEQ = ["make_pair_unwraps_refwrap", "make_tuple_unwraps_refwrap", "tuple_cat_value_types", "tuple_cat_keeps_ref",
          "tuple_cat_keeps_nested", "tuple_copy_assignable", "tuple_move_assignable", "tuple_get_by_type",
-         "tuple_structured_binding", "pair_ref_copy_assignable", "pair_get_by_type", "tuple_converting_ctor"]
-TYPE_FINDINGS = {"tuple_cat_keeps_ref": "F-C20-tuple-cat-decays", "tuple_cat_keeps_nested": "F-C20-tuple-cat-decays"}
+         "tuple_structured_binding", "pair_ref_copy_assignable", "pair_get_by_type", "tuple_converting_ctor", "tuple_cat_no_args",
+         "tuple_cat_pair_elements"]
+TYPE_FINDINGS = {}
 NAN = 9
 
 
@@ -354,6 +369,8 @@ def generate(tier, seed):
             for ts in shapes:
                 v = list(range(1, sum(ts) + 1))
                 add("tcat k=%s q=%d ts=%s v=%s" % (fmt_list([t] * sum(ts)), q, fmt_list(ts), fmt_list(v)), "tcat")
+    for q in range(4):
+        add("tcat k=[] q=%d ts=[] v=[]" % q, "tcat/none")     # tuple_cat() with no argument
     for ks, ts in TCAT_MIXED:
         for q in range(4):
             add("tcat k=%s q=%d ts=%s v=%s" % (fmt_list(ks), q, fmt_list(ts), fmt_list(list(range(1, len(ks) + 1)))), "tcat/mixed")
@@ -528,7 +545,8 @@ def group_of(case):
 
 CLAIMED = True
 TECHNIQUE = ("Lean 4 proofs about a hand model + differential testing.  Proved without bounds: the lexicographic pair relations, tuple "
-             "equality, tuple_cat, the inplace_function vtable-thunk machine (with object lifetimes, free swap and nullptr comparison) "
+             "equality, tuple_cat, the inplace_function vtable-thunk machine (with object lifetimes, construction / assignment from a "
+             "source of any value category and of another specialisation, free swap and nullptr comparison) "
              "refining an owner semantics for all histories, and reference_wrapper / function_ref as objects (pointer members executed "
              "forwards = target resolved backwards, for all histories of construction, copy and assignment).  The forwarding wrappers "
              "(invoke, reference_wrapper, function_ref, bind_front, not_fn, apply - also around pointers to members) are one-line "
@@ -551,9 +569,13 @@ LEVEL_TEXT = ("pair and tuple members are modelled as the member-wise expansion 
               "synthesised from an asymmetric <, form a strict total order with its derived relations for strict total element "
               "orders, and for double elements equal std::pair's exactly on the inputs outside the NaN class of the known finding "
               "(and differ on every input inside it); (b) tuple == never fails and is list equality for every arity including 0; (c) "
-              "tuple_cat of one or more tuples is their concatenation and never reads out of range; (d) for every history of "
+              "tuple_cat of any number of tuples (none included) is their concatenation and never reads out of range; (d) for every history of "
               "construct/copy/move/assign/member swap/free swap/reset/call/compare-with-nullptr on inplace_function (any length, any "
-              "number of objects, including self-assignment and self-swap) the thunk machine never fails (no use of a destroyed "
+              "number of objects, including self-assignment and self-swap; construction and assignment from a source expression of "
+              "each of the four value categories, of the same or of another specialisation: the model selects the constructor by "
+              "the category - only a non-const rvalue relocates, the closure constructor is never viable for an inplace_function "
+              "source -; from_empty_is_empty: whatever the category, a wrapper made or assigned from an empty one reports empty and "
+              "never calls) the thunk machine never fails (no use of a destroyed "
               "closure, no construction over a live one), keeps vtable and storage consistent, leaves no temporary alive, and refines "
               "the abstract owner semantics: copies call an equivalent target, a move empties the source, swap (member or free) "
               "exchanges, an empty object reports bad_function_call, compares equal to nullptr and logs nothing, a call logs exactly "
@@ -562,8 +584,11 @@ LEVEL_TEXT = ("pair and tuple members are modelled as the member-wise expansion 
               "operation (refPtrs_designates), a copy designates the source's target, an assignment rebinds only the assigned wrapper, "
               "and a call through any wrapper is exactly one call of the designated target.  Also stated and proved, but with little "
               "proof content because model and specification are the same few lines: (e) the member-wise pair/tuple operations "
-              "(default/copy/move construction, assignment, swap, get, make_from_tuple - the converting constructors and assignments "
-              "of pair and tuple are the same member-wise expansions, their element conversions int->long / short->int preserve "
+              "(default/copy/move construction, assignment, swap, get, make_from_tuple - for target kinds with an "
+              "initializer_list constructor, aggregates, explicit constructors and narrowing parameters the model initialises with "
+              "parentheses as the header does and equals the direct-non-list-initialisation of [tuple.apply] (makeFromTupleT_eq); "
+              "listInit_differs / listInit_same state exactly for which kinds braces would differ - the converting constructors and "
+              "assignments of pair and tuple are the same member-wise expansions, their element conversions int->long / short->int preserve "
               "values) equal their map/sum form for every arity and kind list (bookkeeping identities: the recursion is a map); (f) "
               "the outcome of a call through invoke, reference_wrapper, function_ref, bind_front, not_fn, not_fn<ConstFn>() and apply "
               "- also around a pointer to member - satisfies the predicate Spec.CalledOnce (exactly one log entry, for the wrapped "
@@ -576,7 +601,7 @@ LEVEL_NOTE = ("Trusted: Lean kernel + propext/Classical.choice/Quot.sound; the h
               "!INVOKE / call).  Value-category preservation as a type-level fact (decltype) is not carried by the value-level model "
               "and not proved: it is checked by a compile-time static_assert matrix against libstdc++ (coverage.unproved_observed) "
               "and, where the headers are known to differ, reported at run time as KNOWN-FINDING lines.  Not generated (see "
-              "coverage.unproved_observed): tuples of arity 3 beyond the 14 instantiated kind lists, tuple_cat() without arguments, "
+              "coverage.unproved_observed): tuples of arity 3 beyond the 14 instantiated kind lists, "
               "get<T&>(pair&&) (does not compile in libstdc++ 12).")
 UNPROVED_OBSERVED = [
     "value-category / element-type preservation (decltype): static_assert matrix in harness/c20.cpp — get<I> on pair and tuple for all 49 "
@@ -593,7 +618,7 @@ UNPROVED_OBSERVED = [
     "aliasing of get<T> / structured bindings / tie / forward_as_tuple (the names designate the elements themselves): address comparisons "
     "in the harness (`!alias`), no model",
     "NOT exercised at all (neither generated nor modelled): tuples of arity 3 outside the 14 instantiated kind lists and of arity > 3; "
-    "tuple_cat of more than 3 tuples, of pairs / arrays, and tuple_cat() with no argument (hard error in etl, tuple<> in std); "
+    "tuple_cat of more than 3 tuples, of arrays (of pairs: result type only, typeq q=tuple_cat_pair_elements); "
     "get<T>(pair&&) / get<T>(tuple&&) with a reference element (libstdc++ 12 does not compile the pair form); allocator-extended and "
     "piecewise construction (absent from etl)",
 ]
@@ -610,6 +635,13 @@ CORRESPONDENCE_ONLY = [
     "the number of copies made while binding arguments (bind_front), while copying a wrapper, by tuple_cat (driver: copyAll / moveAll over "
     "the flattened elements, chosen by the category of the argument tuples) and while passing a by-value argument (function_ref, "
     "inplace_function): computed by the driver from the argument categories, no theorem",
+    "inplace_function: which constructor overload resolution selects for a source expression of a given category (Model.selectCtor: 4 rows, "
+    "transcribed from the constraints of the three competing constructors) and make_from_tuple: which constructor of the target "
+    "type parentheses select (Model.parenInit, one row per target kind) are tables about C++ overload resolution; the theorems "
+    "relate them to the specification's tables (Spec.gives, Spec.directInit) and the tie to the code is the correspondence run "
+    "(conversion matrix, mft lines), which is what catches a changed constraint / a changed initialisation form",
+    "Spec.listInit (what T{x...} would do) is not behaviour of the library: it is validated against g++ by the form=brace lines "
+    "(both harness columns are the compiler's) and used only by listInit_differs / listInit_same",
     "Lemmas.invoke_spec / refWrap_spec / functionRef_spec / bindFront_spec / notFn_spec / apply_spec (model = executable spec): "
     "transcription checks between two copies of the same few lines, deliberately not counted as property theorems",
 ]
